@@ -7,14 +7,19 @@
    no later unregister request for that address follows (model/Registry.v, proofs/RegistryP.v).
    [keq] is Python's == on port values, [upper]/[lower] are str.upper/str.lower, [fso] the iteration
    order of a frozenset: the theorems hold for every choice of them ([keq] an equivalence).
-   [F] carries the three facts tools/pygen reads off rpyc/utils/registry.py. *)
+   [enc v] says that brine.dump(v) succeeds where _work calls it (the decoder accepts deeper nesting
+   than the encoder can emit before the interpreter's recursion limit): again any function.
+   [F] carries the six facts tools/pygen reads off rpyc/utils/registry.py.
+   What is only partly covered carries [_partial] in its name; every [_refuted] theorem is the witness
+   of a defect, for trees on which the corresponding fact is false (or, for the two marked "known",
+   for every tree). *)
 From V Require Import lib.Base model.Brine model.Registry proofs.RegistryP gen.Gen_registry.
 From Coq Require Import String Sorting.Sorted.
 Open Scope string_scope.
 Open Scope Z_scope.
 
-(* 1. after ANY history with a clock that does not go backwards, a query for N (already upper-cased, see 1')
-      is answered with exactly the addresses whose newest registration under N has not been followed by an
+(* 1. after ANY history with a clock that does not go backwards, a query for N (already upper-cased, see 1c)
+      is computed as exactly the addresses whose newest registration under N has not been followed by an
       unregister and is not older than the pruning interval; one per address; oldest refresh first *)
 Theorem c18_query_exact : forall keq F pruning, keq_equiv keq ->
   forall rh now host N, mono rh -> clock_le rh now ->
@@ -30,26 +35,56 @@ Proof.
 Qed.
 Print Assumptions c18_query_exact.
 
-(* 1'. case-insensitivity: service names reach the table only through upper(), on both sides *)
-Theorem c18_case_insensitive : forall upper lower fso F c,
-  (find_cmd (lower c) = Some CQuery -> forall n1 n2, upper n1 = upper n2 ->
-     classify upper lower fso F (PTuple [PStr RPYC; PStr c; PTuple [PStr n1]])
-     = classify upper lower fso F (PTuple [PStr RPYC; PStr c; PTuple [PStr n2]])
-     /\ classify upper lower fso F (PTuple [PStr RPYC; PStr c; PTuple [PStr n1]]) = RQuery (upper n1))
-  /\ (find_cmd (lower c) = Some CRegister -> forall ns p,
-     classify upper lower fso F (PTuple [PStr RPYC; PStr c; PTuple [PTuple (map PStr ns); p]]) = RRegister (map upper ns) p)
-  /\ (find_cmd (lower c) = Some CUnregister -> forall p,
-     classify upper lower fso F (PTuple [PStr RPYC; PStr c; PTuple [p]]) = RUnregister p).
+(* 1a. that answer is also delivered: the reply can be encoded, provided every register request of the history
+       named an address that can be sent back -- which a tree that validates at registration guarantees for
+       every request that reaches the table *)
+Theorem c18_query_delivered : forall upper lower fso keq enc F pruning,
+  enc_tuple_ok enc ->
+  (forall rh now h N, regs_ok (answerable enc) rh ->
+     deliver enc F (exec keq F pruning now h (RQuery N) (state_after keq F pruning rh))
+     = exec keq F pruning now h (RQuery N) (state_after keq F pruning rh))
+  /\ (register_validates F = true -> forall h v ns p,
+        classify upper lower fso enc F h v = RRegister ns p -> answerable enc (h, p)).
 Proof.
-  intros upper lower fso F c. split; [|split].
-  - intros E n1 n2 H. rewrite !(classify_query_upper upper lower fso F c _ E). now rewrite H.
-  - intros E ns p. now apply classify_register_upper.
+  intros upper lower fso keq enc F pruning ET. split.
+  - intros rh now h N RO. now apply query_delivered.
+  - intros V h v ns p E. apply (accepted_answerable enc F h p V).
+    now apply (classify_register_accepted upper lower fso enc F h v ns p).
+Qed.
+Print Assumptions c18_query_delivered.
+
+(* 1b. false on a tree that does not validate (review r5 no. 1): a register whose port is nested close to the
+       decoder's limit is acknowledged, and the next query for that name is never answered (reply guarded;
+       see 3b for the tree where it is not) *)
+Theorem c18_query_delivered_refuted : forall F, reply_guarded F = true -> register_validates F = false ->
+  enc_tuple_ok (shallow 5)
+  /\ exists s1 m1,
+     work_val ascii_upper ascii_lower fso_id pyval_eqb (shallow 5) F 240 1000 h1 [] register_deep = Next s1 m1 (Some OKv)
+  /\ work_val ascii_upper ascii_lower fso_id pyval_eqb (shallow 5) F 240 1000 h1 s1 query_deep = Next s1 [] None.
+Proof. intros F G V. split; [exact (shallow_tuple_ok 3)|now apply reply_lost_witness]. Qed.
+Print Assumptions c18_query_delivered_refuted.
+
+(* 1c. case-insensitivity: service names reach the table only through upper(), on both sides *)
+Theorem c18_case_insensitive : forall upper lower fso enc F h c,
+  (find_cmd (lower c) = Some CQuery -> forall n1 n2, upper n1 = upper n2 ->
+     classify upper lower fso enc F h (PTuple [PStr RPYC; PStr c; PTuple [PStr n1]])
+     = classify upper lower fso enc F h (PTuple [PStr RPYC; PStr c; PTuple [PStr n2]])
+     /\ classify upper lower fso enc F h (PTuple [PStr RPYC; PStr c; PTuple [PStr n1]]) = RQuery (upper n1))
+  /\ (find_cmd (lower c) = Some CRegister -> forall ns p, accepted enc F h p = true ->
+     classify upper lower fso enc F h (PTuple [PStr RPYC; PStr c; PTuple [PTuple (map PStr ns); p]]) = RRegister (map upper ns) p)
+  /\ (find_cmd (lower c) = Some CUnregister -> forall p,
+     classify upper lower fso enc F h (PTuple [PStr RPYC; PStr c; PTuple [p]]) = RUnregister p).
+Proof.
+  intros upper lower fso enc F h c. split; [|split].
+  - intros E n1 n2 H. rewrite !(classify_query_upper upper lower fso enc F h c _ E). now rewrite H.
+  - intros E ns p A. now apply classify_register_upper.
   - intros E p. now apply classify_unregister.
 Qed.
 Print Assumptions c18_case_insensitive.
 
-(* 2. the notifications of every step are exactly the membership changes of the table, each once
-      (on a tree where _remove_service notifies only when it removed something) *)
+(* 2. TABLE membership: the notifications of every step are exactly the changes of the keys of the table,
+      each once (on a tree where _remove_service notifies only when it removed something).  The table lags
+      behind the property's freshness-based membership: see 2b and 2c. *)
 Theorem c18_notifications_exact : forall keq F pruning, keq_equiv keq -> notify_only_present F = true ->
   forall rh now h r N b,
   let s := state_after keq F pruning rh in
@@ -65,7 +100,7 @@ Proof.
 Qed.
 Print Assumptions c18_notifications_exact.
 
-(* 2'. false on a tree where it notifies unconditionally (F4c): register FOO :1234; register BAR :999;
+(* 2a. false on a tree where it notifies unconditionally (F4c): register FOO :1234; register BAR :999;
        unregister :999 logs "removed FOO :999" although FOO's membership did not change *)
 Theorem c18_notifications_exact_refuted : forall F pruning, notify_only_present F = false ->
   let s := state_after pyval_eqb F pruning witness_history in
@@ -76,32 +111,84 @@ Theorem c18_notifications_exact_refuted : forall F pruning, notify_only_present 
 Proof. exact spurious_removed. Qed.
 Print Assumptions c18_notifications_exact_refuted.
 
-(* 3. no value in place of (magic, command, args) and no byte string ends the loop
-      (on a tree where a non-text command cannot raise outside the guarded regions) *)
-Theorem c18_loop_survives : forall upper lower fso keq F pruning, lookup_guarded F = true ->
-  (forall now h s v, exists s' m rep, work_val upper lower fso keq F pruning now h s v = Next s' m rep)
-  /\ (forall P now h s dg e, work_step upper lower fso keq F pruning P now h s dg <> Some (Dead e)).
+(* 2b. (partial: the property's membership is "registered, not unregistered, refreshed within the interval";
+       the code notices an expiry only at the next query for that name.)  Over the whole log,
+       #added - #removed of (N, b) is 1 exactly when b is in the table under N; an entry that is registered and
+       fresh at the clock is in the table; one that is not registered (never, or unregistered since) is not;
+       and right after a query for N the table under N IS the fresh registered set.  What is not
+       guaranteed is stated in 2c. *)
+Theorem c18_notifications_fresh_partial : forall keq F pruning, keq_equiv keq -> notify_only_present F = true ->
+  forall rh N b, mono rh ->
+  let s := state_after keq F pruning rh in
+  count keq true N b (log_after keq F pruning rh)
+    = (count keq false N b (log_after keq F pruning rh) + ind (member keq N b s))%nat
+  /\ (forall t, live keq rh N b = Some t -> ~ stale_at pruning rh t -> member keq N b s = true)
+  /\ (live keq rh N b = None -> member keq N b s = false)
+  /\ (forall now h, clock_le rh now ->
+        (member keq N b (state_after keq F pruning ((now, h, RQuery N) :: rh)) = true
+         <-> exists t, live keq rh N b = Some t /\ now - pruning <= t)).
 Proof.
-  intros upper lower fso keq F pruning G. split.
+  intros keq F pruning (R & S & T) HF rh N b M. cbn zeta.
+  destruct (member_vs_live keq F pruning R S T rh N b M) as (A & B & _).
+  split; [now apply log_balance|]. split; [exact A|]. split; [exact B|].
+  intros now h C. exact (member_after_query keq F pruning R S T rh now h N b M C).
+Qed.
+Print Assumptions c18_notifications_fresh_partial.
+
+(* 2c. the strict reading fails on every tree (review r5 no. 5, known finding): with interval 5, a registration
+       of time 1000 is no longer fresh at 1010 but still counted present (no "removed" was fired), and when
+       it registers again at 1011 -- back in the fresh set -- no "added" is fired *)
+Theorem c18_notifications_fresh_refuted : forall F,
+  mono lazy_history
+  /\ live pyval_eqb lazy_history (T "FOO") (h1, PInt 1) = Some 1000 /\ stale_at 5 lazy_history 1000
+  /\ member pyval_eqb (T "FOO") (h1, PInt 1) (state_after pyval_eqb F 5 lazy_history) = true
+  /\ notes_of (exec pyval_eqb F 5 1011 h1 (RRegister [T "FOO"] (PInt 1)) (state_after pyval_eqb F 5 lazy_history)) = [].
+Proof. exact lazy_expiry_witness. Qed.
+Print Assumptions c18_notifications_fresh_refuted.
+
+(* 3. no value in place of (magic, command, args) and no byte string ends the loop -- on a tree where neither
+      a non-text command nor a reply that cannot be encoded can raise outside the guarded regions *)
+Theorem c18_loop_survives : forall upper lower fso keq enc F pruning, lookup_guarded F = true -> reply_guarded F = true ->
+  (forall now h s v, exists s' m rep, work_val upper lower fso keq enc F pruning now h s v = Next s' m rep)
+  /\ (forall P now h s dg e, work_step upper lower fso keq enc F pruning P now h s dg <> Some (Dead e)).
+Proof.
+  intros upper lower fso keq enc F pruning G RG. split.
   - intros now h s v. now apply loop_survives.
   - intros P now h s dg e. now apply loop_survives_bytes.
 Qed.
 Print Assumptions c18_loop_survives.
 
-(* 3'. false on a tree where cmd.lower() is evaluated outside every guard (F4a):
+(* 3a. false on a tree where cmd.lower() is evaluated outside every guard (F4a):
        the nine bytes brine.dump(("RPYC", 5, ())) end the loop *)
 Theorem c18_loop_survives_refuted : forall F pruning P now h s, lookup_guarded F = false ->
-  work_step ascii_upper ascii_lower fso_id pyval_eqb F pruning P now h s witness_numeric_command = Some (Dead AttributeError)
-  /\ forall upper lower fso keq,
-     work_val upper lower fso keq F pruning now h s (PTuple [PStr RPYC; PInt 5; PTuple []]) = Dead AttributeError.
+  work_step ascii_upper ascii_lower fso_id pyval_eqb enc_all F pruning P now h s witness_numeric_command = Some (Dead AttributeError)
+  /\ forall upper lower fso keq enc,
+     work_val upper lower fso keq enc F pruning now h s (PTuple [PStr RPYC; PInt 5; PTuple []]) = Dead AttributeError.
 Proof.
   intros F pruning P now h s G. split; [now apply loop_dies_bytes|].
-  intros upper lower fso keq. now apply loop_dies_unguarded.
+  intros upper lower fso keq enc. now apply loop_dies_unguarded.
 Qed.
 Print Assumptions c18_loop_survives_refuted.
 
-(* 3''. a request changes only the registrations it names: its sender's host with the port and the
-        names it carries; a query only drops entries of its own name that are older than the interval *)
+(* 3b. false on a tree where brine.dump(reply) sits in the else branch of the guard (review r5 no. 1): whenever a
+       command has run and its reply cannot be encoded the loop ends, with the command's effects applied; witness:
+       a register with a deeply nested port is acknowledged, the next query for that name ends the loop *)
+Theorem c18_loop_survives_refuted_reply : forall F, reply_guarded F = false ->
+  (forall upper lower fso keq enc pruning now h s v s' m rep,
+     exec keq F pruning now h (classify upper lower fso enc F h v) s = Next s' m (Some rep) -> enc rep = false ->
+     work_val upper lower fso keq enc F pruning now h s v = Dead OtherError)
+  /\ (register_validates F = false -> exists s1 m1,
+        work_val ascii_upper ascii_lower fso_id pyval_eqb (shallow 5) F 240 1000 h1 [] register_deep = Next s1 m1 (Some OKv)
+        /\ work_val ascii_upper ascii_lower fso_id pyval_eqb (shallow 5) F 240 1000 h1 s1 query_deep = Dead OtherError).
+Proof.
+  intros F G. split.
+  - intros. now eapply reply_dies_unguarded; eauto.
+  - intros V. now apply reply_dies_witness.
+Qed.
+Print Assumptions c18_loop_survives_refuted_reply.
+
+(* 3c. a request changes only the registrations it names: its sender's host with the port and the
+       names it carries; a query only drops entries of its own name that are older than the interval *)
 Theorem c18_no_collateral : forall keq F pruning, keq_equiv keq ->
   forall rh now h r N b,
   let s := state_after keq F pruning rh in
@@ -114,11 +201,11 @@ Proof.
 Qed.
 Print Assumptions c18_no_collateral.
 
-(* 3'''. the malformed shapes the property lists are dropped: table and log untouched, no reply *)
-Theorem c18_malformed_dropped : forall upper lower fso keq F pruning now h s,
-  let drop v := work_val upper lower fso keq F pruning now h s v = Next s [] None in
+(* 3d. the malformed shapes the property lists are dropped: table and log untouched, no reply *)
+Theorem c18_malformed_dropped : forall upper lower fso keq enc F pruning now h s,
+  let drop v := work_val upper lower fso keq enc F pruning now h s v = Next s [] None in
   (forall P dg e, load P dg = Raise e ->
-     work_step upper lower fso keq F pruning P now h s dg = Some (Next s [] None))       (* undecodable bytes *)
+     work_step upper lower fso keq enc F pruning P now h s dg = Some (Next s [] None))   (* undecodable bytes *)
   /\ (forall v, py_iter fso v = None -> drop v)                                              (* not a sequence *)
   /\ (forall v l, py_iter fso v = Some l -> List.length l <> 3%nat -> drop v)                (* not a triple *)
   /\ (forall m c a, is_text RPYC m = false -> drop (PTuple [m; c; a]))                        (* wrong magic *)
@@ -126,9 +213,11 @@ Theorem c18_malformed_dropped : forall upper lower fso keq F pruning now h s,
   /\ (lookup_guarded F = true -> forall c a, (forall t, c <> PStr t) -> drop (PTuple [PStr RPYC; c; a]))   (* non-text command *)
   /\ (forall c a, py_iter fso a = None -> drop (PTuple [PStr RPYC; PStr c; a]))               (* args not a sequence *)
   /\ (forall c k a al, find_cmd (lower c) = Some k -> py_iter fso a = Some al ->
-        List.length al <> (match k with CRegister => 2 | _ => 1 end)%nat -> drop (PTuple [PStr RPYC; PStr c; a])).  (* wrong argument count *)
+        List.length al <> (match k with CRegister => 2 | _ => 1 end)%nat -> drop (PTuple [PStr RPYC; PStr c; a]))  (* wrong argument count *)
+  /\ (forall c ns p, find_cmd (lower c) = Some CRegister -> accepted enc F h p = false ->
+        drop (PTuple [PStr RPYC; PStr c; PTuple [PTuple (map PStr ns); p]])).                   (* address that could not be sent back *)
 Proof.
-  intros upper lower fso keq F pruning now h s drop. unfold drop.
+  intros upper lower fso keq enc F pruning now h s drop. unfold drop.
   repeat split; intros.
   - now eapply undecodable_dropped; eauto.
   - apply malformed_dropped. now apply classify_not_iterable.
@@ -138,44 +227,80 @@ Proof.
   - apply malformed_dropped. now apply classify_nontext_command.
   - apply malformed_dropped. now apply classify_args_not_iterable.
   - apply malformed_dropped. now eapply classify_wrong_arg_count; eauto.
+  - apply malformed_dropped. now apply classify_register_refused.
 Qed.
 Print Assumptions c18_malformed_dropped.
 
-(* 4. (partial: blocking is OS behaviour, the model carries the generated flag) with a timeout on the
-      accepted socket silent clients are invisible to the others and nobody is starved *)
-Theorem c18_tcp_silent_client_partial : forall upper lower fso keq F pruning, tcp_timeout F = true ->
-  (forall cs s, results_of_sends cs (tcp_run upper lower fso keq F pruning s cs)
-                = tcp_run upper lower fso keq F pruning s (sends_of cs))
-  /\ (lookup_guarded F = true -> forall cs s, ~ In TStarved (tcp_run upper lower fso keq F pruning s cs)).
+(* 4. (partial: blocking and descriptor exhaustion are OS behaviour; the model carries the generated flags, a
+      count of accepted sockets that were never answered and the number [fdmax] the process can hold.)
+      With a timeout on the accepted socket silent clients are invisible to the others; if moreover unanswered
+      sockets are closed and the loop cannot die, nobody is ever starved *)
+Theorem c18_tcp_silent_client_partial : forall upper lower fso keq enc F pruning fdmax, tcp_timeout F = true ->
+  (forall cs p s, results_of_sends cs (tcp_run upper lower fso keq enc F pruning fdmax p s cs)
+                  = tcp_run upper lower fso keq enc F pruning fdmax p s (sends_of cs))
+  /\ (lookup_guarded F = true -> reply_guarded F = true -> tcp_closes_unanswered F = true -> (1 <= fdmax)%nat ->
+      forall cs p s, ~ In TStarved (tcp_run upper lower fso keq enc F pruning fdmax p s cs)).
 Proof.
-  intros upper lower fso keq F pruning HT. split.
-  - intros cs s. now apply tcp_silent_invisible.
-  - intros G cs s. now apply tcp_nobody_starves.
+  intros upper lower fso keq enc F pruning fdmax HT. split.
+  - intros cs p s. now apply tcp_silent_invisible.
+  - intros G RG CL FD cs p s. now apply tcp_nobody_starves.
 Qed.
 Print Assumptions c18_tcp_silent_client_partial.
 
-(* 4'. false on a tree where recv on the accepted socket blocks (F4b) *)
-Theorem c18_tcp_silent_client_refuted : forall upper lower fso keq F pruning, tcp_timeout F = false ->
+(* 4a. false on a tree where recv on the accepted socket blocks (F4b) *)
+Theorem c18_tcp_silent_client_refuted : forall upper lower fso keq enc F pruning fdmax, tcp_timeout F = false ->
   forall now h now' h' v s,
-  tcp_run upper lower fso keq F pruning s [(now, h, Silent); (now', h', Sends v)] = [TStarved; TStarved].
+  tcp_run upper lower fso keq enc F pruning fdmax O s [(now, h, Silent); (now', h', Sends v)] = [TStarved; TStarved].
 Proof. intros. now apply tcp_silent_starves. Qed.
 Print Assumptions c18_tcp_silent_client_refuted.
 
-(* 5. tie to the current source tree: the skeletons of _work, _remove_service and TCP _recv are among
-      the shapes the model covers, and the three facts are the ones those skeletons imply *)
+(* 4b. false on a tree where sockets of unanswered requests stay open (review r5 no. 3): after [fdmax] requests
+       that get no reply -- here: an unknown command -- every later client is starved, whatever it sends *)
+Theorem c18_tcp_leak_refuted : forall upper lower fso keq enc F pruning fdmax, tcp_closes_unanswered F = false ->
+  forall now h c a, find_cmd (lower c) = None -> forall cl s,
+  tcp_run upper lower fso keq enc F pruning fdmax O s
+    (repeat (now, h, Sends (PTuple [PStr RPYC; PStr c; a])) fdmax ++ [cl])%list
+  = (repeat (TReached None) fdmax ++ [TStarved])%list.
+Proof.
+  intros upper lower fso keq enc F pruning fdmax CL now h c a E cl s.
+  apply tcp_leak_starves; auto.
+  intros s0. apply malformed_dropped. now apply classify_unknown_command.
+Qed.
+Print Assumptions c18_tcp_leak_refuted.
+
+(* 4c. (partial: all clients connect at time 0.)  A client is reached after one server timeout per silent client
+       ahead of it; so with the stock constants -- server 3 s, client 2 s (review r5 no. 4, known finding) -- a
+       single silent client makes a stock client give up before the registry turns to it *)
+Theorem c18_tcp_latency_partial : forall T cs i,
+  reached_at_ms T cs i = T * Z.of_nat (silent_before cs i).
+Proof. exact reached_at_silent. Qed.
+Print Assumptions c18_tcp_latency_partial.
+Theorem c18_tcp_stock_client_refuted : Gen_registry.tcp_client_timeout_ms <= Gen_registry.tcp_timeout_ms ->
+  forall v, Gen_registry.tcp_client_timeout_ms <= reached_at_ms Gen_registry.tcp_timeout_ms [Silent; Sends v] 1.
+Proof. intros H v. cbn [reached_at_ms]. lia. Qed.
+Print Assumptions c18_tcp_stock_client_refuted.
+
+(* 5. tie to the current source tree: the skeletons of _work, _remove_service, cmd_register and TCP _recv are
+      among the shapes the model covers, and the six facts are the ones those skeletons imply *)
 Theorem c18_tie :
   Gen_registry.commands = ["query"; "register"; "unregister"]%string
   /\ skel_known Gen_registry.work_skeleton = true
   /\ lookup_guarded Fgen = skel_guarded Gen_registry.work_skeleton
+  /\ reply_guarded Fgen = skel_reply_guarded Gen_registry.work_skeleton
   /\ rskel_known Gen_registry.remove_skeleton = true
   /\ notify_only_present Fgen = rskel_only_present Gen_registry.remove_skeleton
+  /\ gskel_known Gen_registry.register_skeleton = true
+  /\ register_validates Fgen = gskel_validates Gen_registry.register_skeleton
   /\ tskel_known Gen_registry.tcp_recv_skeleton = true
   /\ tcp_timeout Fgen = tskel_timeout Gen_registry.tcp_recv_skeleton
+  /\ tcp_closes_unanswered Fgen = tskel_sweeps Gen_registry.tcp_recv_skeleton
   /\ Gen_registry.default_pruning = 240
+  /\ 0 < Gen_registry.tcp_timeout_ms /\ 0 < Gen_registry.tcp_client_timeout_ms
   /\ keq_equiv pyval_eqb.
 Proof.
-  pose proof tie_commands. pose proof tie_work_skeleton as [? ?]. pose proof tie_remove_skeleton as [? ?].
-  pose proof tie_tcp_recv_skeleton as [? ?]. pose proof tie_constants as (? & _).
+  pose proof tie_commands. pose proof tie_work_skeleton as (? & ? & ?). pose proof tie_remove_skeleton as [? ?].
+  pose proof tie_register_skeleton as [? ?].
+  pose proof tie_tcp_recv_skeleton as (? & ? & ?). pose proof tie_constants as (? & _ & _ & ? & ?).
   repeat split; auto; apply pyval_eqb_equiv.
 Qed.
 Print Assumptions c18_tie.
@@ -183,7 +308,8 @@ Print Assumptions c18_tie.
 (* ---- non-vacuity ---- *)
 (* a history from three hosts with aliases, a refresh, an unregister, a malformed request and a query
    that prunes; pruning interval 5 *)
-Definition Fok : facts := {| lookup_guarded := true; notify_only_present := true; tcp_timeout := true |}.
+Definition Fok : facts := {| lookup_guarded := true; notify_only_present := true; tcp_timeout := true;
+                            reply_guarded := true; register_validates := true; tcp_closes_unanswered := true |}.
 Definition ha : text := T "a".  Definition hb : text := T "b".  Definition hc : text := T "c".
 Definition sample_history : list event :=    (* newest first *)
   [(1021, hb, RRegister [T "FOO"] (PInt 1));
@@ -216,12 +342,12 @@ Proof. vm_compute. split; reflexivity. Qed.
 Definition P0 : bparams := {| sp := true; maxdigits := 4300 |}.
 Example c18_sample_datagrams :
   (match dump P0 (PTuple [PStr RPYC; PStr (T "QUERY"); PTuple [PStr (T "Foo")]]) with
-   | Ok bs => option_map (classify ascii_upper ascii_lower fso_id Fok) (decode P0 bs) | _ => None end
+   | Ok bs => option_map (classify ascii_upper ascii_lower fso_id enc_all Fok ha) (decode P0 bs) | _ => None end
    = Some (RQuery (T "FOO")))
   /\ (match dump P0 (PTuple [PStr RPYC; PStr (T "REGISTER"); PTuple [PTuple [PStr (T "foo"); PStr (T "Bar")]; PInt 18812]]) with
-      | Ok bs => option_map (classify ascii_upper ascii_lower fso_id Fok) (decode P0 bs) | _ => None end
+      | Ok bs => option_map (classify ascii_upper ascii_lower fso_id enc_all Fok ha) (decode P0 bs) | _ => None end
       = Some (RRegister [T "FOO"; T "BAR"] (PInt 18812)))
-  /\ option_map (classify ascii_upper ascii_lower fso_id Fok) (decode P0 witness_numeric_command) = Some RNone
+  /\ option_map (classify ascii_upper ascii_lower fso_id enc_all Fok ha) (decode P0 witness_numeric_command) = Some RNone
   /\ decode P0 [xff; x00] = Some PNone.
 Proof. vm_compute. repeat split. Qed.
 
@@ -229,6 +355,30 @@ Proof. vm_compute. repeat split. Qed.
 Example c18_sample_tcp :
   let q := PTuple [PStr RPYC; PStr (T "QUERY"); PTuple [PStr (T "foo")]] in
   let r := PTuple [PStr RPYC; PStr (T "REGISTER"); PTuple [PTuple [PStr (T "foo")]; PInt 1234]] in
-  tcp_run ascii_upper ascii_lower fso_id pyval_eqb Fok 240 [] [(1, ha, Sends r); (2, hb, Silent); (3, hc, Sends q)]
+  tcp_run ascii_upper ascii_lower fso_id pyval_eqb enc_all Fok 240 8 0 [] [(1, ha, Sends r); (2, hb, Silent); (3, hc, Sends q)]
   = [TReached (Some OKv); TReached None; TReached (Some (PTuple [PTuple [PStr ha; PInt 1234]]))].
 Proof. vm_compute. reflexivity. Qed.
+
+(* the hypotheses of 1a and 2b are met by the sample history with a depth-limited encoder; the deep registration
+   is refused on a validating tree; the log balance of the sample history *)
+Example c18_sample_delivery :
+  enc_tuple_ok (shallow 5) /\ regs_ok (answerable (shallow 5)) sample_history
+  /\ work_val ascii_upper ascii_lower fso_id pyval_eqb (shallow 5) Fok 240 1000 h1 [] register_deep = Next [] [] None
+  /\ count pyval_eqb true (T "FOO") (hb, PInt 1) (log_after pyval_eqb Fok 5 sample_history) = 2%nat
+  /\ count pyval_eqb false (T "FOO") (hb, PInt 1) (log_after pyval_eqb Fok 5 sample_history) = 1%nat
+  /\ member pyval_eqb (T "FOO") (hb, PInt 1) (state_after pyval_eqb Fok 5 sample_history) = true.
+Proof.
+  split; [exact (shallow_tuple_ok 3)|]. split; [repeat constructor|]. vm_compute. repeat split.
+Qed.
+
+(* an unanswered request per descriptor, then a query: starved without the sweep, answered with it *)
+Example c18_sample_tcp_leak :
+  let bad := PTuple [PStr RPYC; PStr (T "nosuch"); PTuple []] in
+  let q := PTuple [PStr RPYC; PStr (T "QUERY"); PTuple [PStr (T "foo")]] in
+  let Fleak := {| lookup_guarded := true; notify_only_present := true; tcp_timeout := true;
+                  reply_guarded := true; register_validates := true; tcp_closes_unanswered := false |} in
+  tcp_run ascii_upper ascii_lower fso_id pyval_eqb enc_all Fleak 240 2 0 [] [(1, ha, Sends bad); (2, ha, Sends bad); (3, hc, Sends q)]
+    = [TReached None; TReached None; TStarved]
+  /\ tcp_run ascii_upper ascii_lower fso_id pyval_eqb enc_all Fok 240 2 0 [] [(1, ha, Sends bad); (2, ha, Sends bad); (3, hc, Sends q)]
+    = [TReached None; TReached None; TReached (Some (PTuple []))].
+Proof. vm_compute. split; reflexivity. Qed.
